@@ -274,7 +274,7 @@ def run(sc, chooser, max_steps=8000, eager=()):
             srv.set_exception_handler(make_handler(S, sc, log))
         r.pool_size = srv.thread_pool_size
         # job -> request: the k-th submitted metadata job serves the k-th well-formed post-init request
-        ex = srv._executor
+        ex = getattr(srv, '_executor', None) or shims.MExecutor.instances[-1]
         orig_worker_job = {}
 
         def track(e):
@@ -292,8 +292,8 @@ def run(sc, chooser, max_steps=8000, eager=()):
         # scheduling loop with job bookkeeping
         r.status = run_loop(S, chooser, max_steps, eager, cur_job, sc)
         r.final = {
-            'init_expected': srv.init_expected, 'close_expected': srv._close_expected,
-            'stop': srv._request_manager._stop_request.is_set() if srv._request_manager else False,
+            'init_expected': srv.init_expected, 'close_expected': _ce(srv),
+            'stop': _stop_flag(srv),
             'outq': list(env.queues[0].items) if env.queues else [],
             'jobs': len(ex.jobs), 'shutdown': ex.shutdown_flag, 'sock_closed': env.sock.closed > 0,
             'workers': len(ex.workers),
@@ -679,6 +679,23 @@ def served_requests(r):
         elif l.kind == 'req' and st == 'post' and l.klass[0] == b'req' and l.klass[2] == b'T' and l.klass[3] == b'T':
             out.append(l)
     return out
+
+
+def _ce(srv):
+    import fixture
+    v = fixture.close_expected(srv)
+    return None if v is fixture.UNAVAILABLE else v
+
+
+def _stop_flag(srv):
+    import fixture
+    rm = fixture.find_request_manager(srv)
+    if not rm:
+        return False
+    try:
+        return fixture.find_stop_event(rm).is_set()
+    except AttributeError:
+        return None
 
 
 def content_cases(r):
